@@ -482,6 +482,22 @@ def p_C11(ctx):
     ctx.samples += ctx.sample_from_trace(ctx.last_trace, 2, fields=("case", "tag", "run", "comps"))
     ctx.replay(add(file_cases(None)), "files", "Trace_C11")
     ctx.replay(add(rnd(ctx, 100, 5000, None)), "random", "Trace_C11")
+    # DHW supply mixes of MC_C15 (biomass, district heat, heat pumps, auxiliaries): the DHW renewable fraction
+    # must not move with the scale or the area, also when both change together
+    st15 = ctx.mc("MC_C15", "MC_C15_quick.cfg" if ctx.quick else "MC_C15_thorough.cfg", timeout=3000)
+    def add15(cs):
+        for c in cs:
+            c = dict(c)
+            c.update({"fac": {"mode": "loc", "loc": "PENINSULA", "red1": [500, 500, 100]}, "kexp": [0, 1], "area": [1, 1], "lm": False})
+            c["runs"] = [{"tag": "base"}, {"tag": "s1_64", "scale": [1, 64]}, {"tag": "s16_1", "scale": [16, 1]},
+                         {"tag": "a1000_1", "areamul": [1000, 1], "area": [1000, 1]},
+                         {"tag": "a2_1", "areamul": [2, 1], "area": [2, 1]}]
+            yield c
+            c2 = dict(c)
+            c2["area"] = [1000, 1]
+            c2["runs"] = [{"tag": "base"}, {"tag": "s1_64", "scale": [1, 64]}, {"tag": "s3_1", "scale": [3, 1]}]
+            yield c2
+    ctx.replay(add15(stride(vlib.mc_cases(st15), 60 if ctx.quick else 4, ctx.seed % 60 if ctx.quick else 0)), "dhw-mixes", "Trace_C11")
     ctx.nontrivial = set(range(ctx.ncases))
     ctx.assumptions = [TOL_NOTE, TRUST, "bit-exact scaling for powers of two is not claimed (hash-map summation order differs between runs)", "scalings that take a non-zero value below 0.01 kWh are outside the quantifier and are skipped by the harness",
                        "model level: MC_C09!CheckLayout (ScaleInt) exactly on the lattice"]
@@ -971,6 +987,7 @@ def p_C18(ctx):
 def p_C15(ctx):
     st = ctx.mc("MC_C15", "MC_C15_quick.cfg" if ctx.quick else "MC_C15_thorough.cfg", timeout=3000)
     runs = [{"tag": "base"}, {"tag": "k1", "kexp": [1, 1]}, {"tag": "s3", "scale": [3, 1]}, {"tag": "s10", "scale": [1, 10]}, {"tag": "s64", "scale": [1, 64]},
+            {"tag": "a1000", "area": [1000, 1]}, {"tag": "s64a1000", "scale": [1, 64], "area": [1000, 1]},
             {"tag": "no-nepb", "drop": "nepb"}, {"tag": "no-other", "drop": "other-nonelectric"}]
     def cfg(cs):
         for c in cs:
